@@ -209,7 +209,7 @@ func verifC16GetTopicRun(mask, order, fail int) *verifTQObs {
 }
 
 func verifC16GetTopic() {
-	verifrt.Stub("(*github.com/nsqio/nsq/nsqd.NSQD).Notify", verifNotifyNop)
+	verifrt.StubNative("(*github.com/nsqio/nsq/nsqd.NSQD).Notify", verifNotifyNop)
 	verifrt.Stub("(*github.com/nsqio/nsq/internal/http_api.Client).GETV1", verifTopicGETV1)
 	mask := verifrt.Choice("known", 8)
 	order := verifrt.Choice("order", 2)
